@@ -120,6 +120,21 @@ _tool = None
 _tmpdir = None
 
 
+def _twin(v):
+    """OCTAVE text of a value that compares equal to v in Python but is of another kind (1 / true / 1.0, 0 / false / 0.0), or None"""
+    if isinstance(v, bool):
+        return "1" if v else "0"
+    if isinstance(v, int) and v in (0, 1):
+        return "true" if v else "false"
+    if isinstance(v, float) and v in (0.0, 1.0):
+        return "1" if v else "0"
+    if isinstance(v, int) and not isinstance(v, bool) and abs(v) < 2 ** 53:
+        return "%d.0" % v
+    if isinstance(v, float) and v == int(v) and abs(v) < 1e15:
+        return "%d" % int(v)
+    return None
+
+
 def _tool_route(case, v):
     global _tool, _tmpdir
     from octave_mcp.core.parser import parse
@@ -132,8 +147,13 @@ def _tool_route(case, v):
     out = []
     for key in KEYS:
         for pos in ("assign", "meta", "list1", "list3", "imap"):
+            # where the value is a number / boolean, the field already holds its "twin": equal in Python, another kind in OCTAVE
+            twin = _twin(v)
             with open(path, "w", encoding="utf-8") as f:
-                f.write("===T===\nMETA:\n  TYPE::X\nK::x\nZ::1\n===END===\n")
+                f.write("===T===\nMETA:\n  TYPE::X\n%sK::x\nZ::1\n===END===\n" % ("" if twin is None or pos != "meta" else "  %s::%s\n" % (key, twin)))
+            if twin is not None and pos == "assign":
+                with open(path, "w", encoding="utf-8") as f:
+                    f.write("===T===\nMETA:\n  TYPE::X\n%s%s::%s\nZ::1\n===END===\n" % ("" if key == "K" else "K::x\n", key, twin))
             if pos == "assign":
                 kw = {"changes": {key: v}}
             elif pos == "meta":
